@@ -1,7 +1,7 @@
 #!/usr/bin/env python3
 """Mutation self-test of ./check C12 against the FIXED scratch copy of the repo."""
 import subprocess, sys, os, re, json, shutil
-R = os.environ.get('C12_REPO', '/tmp/wa_c12/repo_fix')   # scratch copy of the repo WITH the F5a/F5b fixes; harness/Cargo.toml must point at it
+R = os.environ.get('C12_REPO', '/tmp/wb_c12b/repo')   # scratch copy of the repo WITH the F5a/F5b/F11 fixes; harness/Cargo.toml must point at it
 V = os.path.dirname(os.path.dirname(os.path.abspath(__file__)))
 F = os.path.join(R, 'src/transport/pci/bus.rs')
 
@@ -92,6 +92,15 @@ MUTS = [
  ('M14 size of a 64-bit BAR loses the upper-half bits where the current address has ones',
   "        size_mask |= u64::from(size_top) << 32;",
   "        size_mask |= u64::from(size_top & !address_top) << 32;"),
+ ('M15 I/O BARs keep the two\'s-complement size (F11 repaired for memory BARs only)',
+  "        let size = address_mask & address_mask.wrapping_neg();",
+  "        let size = if io_space { (!address_mask).wrapping_add(1) } else { address_mask & address_mask.wrapping_neg() };"),
+ ('M16 I/O BAR size truncated to 16 bits',
+  "                size: size as u32,",
+  "                size: size as u16 as u32,"),
+ ('M17 lowest set bit used only when more than 60 mask bits are set, twos complement otherwise (narrow decoders mis-sized)',
+  "        let size = address_mask & address_mask.wrapping_neg();",
+  "        let size = if address_mask.count_ones() > 60 { address_mask & address_mask.wrapping_neg() } else { (!address_mask).wrapping_add(1) };"),
 ]
 
 def sh(cmd, cwd, timeout=1500):
